@@ -9,11 +9,16 @@
       `G` is written by parses too but no longer influences any result;
     * per parser: its own settings (`spec.cfg`, parsing.py:145-147, only used by `set_defaults`), the
       registered dataclasses (`_wrappers`, parsing.py:278), the `_preprocessing_done` latch
-      (parsing.py:144,527-554), the argparse actions added so far (`table`), the call counters of the
-      `parse_tuple` closures hanging off those actions (field_parsing.py:223-247), the defaults pushed
+      (parsing.py:144,527-554), the argparse actions added so far (`table`), the defaults pushed
       into the wrappers by `set_defaults` (parsing.py:385-438), whether `--config_path` was already
       added to the parser itself (parsing.py:338) and the subgroup choices resolved by the first
       `_preprocessing` (parsing.py:536-538, 599-773).
+
+  The call counters of the `parse_tuple` closures hanging off the actions (field_parsing.py:223-256) are NOT part
+  of the state any more: since the D8 repair (b1a5942) every completed occurrence of a tuple option advances its
+  counter by exactly the tuple length, the item type is chosen modulo that length, and a rejected value resets
+  the counter — so between two calls the closure is behaviourally in its initial state and every call starts
+  `Model/Engine` with all counters at 0 (within one call the engine still counts: the option may be repeated).
 
   Fragment: flat dataclasses (fields of `Model/Fields`) with at most one `subgroups(...)` field whose
   alternatives are flat dataclasses; AUTO conflict resolution with no clashing option strings;
@@ -104,7 +109,6 @@ structure PState where
   spec : Spec
   preDone : Bool := false                   -- `_preprocessing_done`
   table : List Act := [helpAct]             -- `parser._actions`
-  counters : Option (List Nat) := some [0]  -- per action: `calls_count` of its closure; `none` = not tracked
   frozen : List FReg := []                  -- `_wrappers` as rewritten by `_preprocessing`
   late : List Reg := []                     -- registrations appended after `_preprocessing` ran
   fileDefs : FileC := []                    -- defaults pushed into the wrappers by `set_defaults`
@@ -223,8 +227,7 @@ def preprocess (env : Env) (p : PState) (args : List Str) : PreOut :=
       match tableFor p.spec.cfg p.fileDefs p.table fregs with
       | none => .stop { p with broken := true } (.unmodelled "field outside the fragment / clashing options")
       | some tbl =>
-        .ok { p with preDone := true, table := tbl, frozen := fregs,
-                     counters := p.counters.map (fun cs => cs ++ (tbl.drop cs.length).map (fun _ => 0)) }
+        .ok { p with preDone := true, table := tbl, frozen := fregs }
 
 /-! ### `_postprocessing` (parsing.py:556-597, 775-991) -/
 
@@ -259,31 +262,22 @@ def subgroupsOf (ns : List (Str × Val)) (frozen : List FReg) : List (Str × Val
   frozen.filterMap (fun fr => fr.reg.cls.sub.bind (fun s =>
     (ns.lookup (fieldDest fr.reg.dest s.name)).map (fun v => (fieldDest fr.reg.dest s.name, v))))
 
-/-- can this argv reach a `parse_tuple` closure at all?  (some token, cut at `=`, is a prefix of — or, for the
-    single-dash short form, extends — an option string of an action that owns such a closure) -/
-def touchesCounter (tbl : List Act) (argv : List Str) : Bool :=
-  tbl.any (fun a => match a.conv with
-    | .tupleCounter _ => a.opts.any (fun o => argv.any (fun t =>
-        let pre := match splitEq t with | some (x, _) => x | none => t
-        pre.length ≥ 2 && (startsWith o pre || startsWith t o)))
-    | _ => false)
-
 def cfgDest : Str := "config_path".toList
 
 /-- everything after `_preprocessing`: `super().parse_known_args` + `_postprocessing`; a pure function of the
-    table, the closure counters, the wrapper list and the pushed defaults -/
-def finishOut (env : Env) (table : List Act) (cs : List Nat) (frozen : List FReg) (late : List Reg)
-    (defs : FileC) (known : Bool) (rest : List Str) : Out × Option (List Nat) :=
+    table, the wrapper list and the pushed defaults -/
+def finishOut (env : Env) (table : List Act) (frozen : List FReg) (late : List Reg)
+    (defs : FileC) (known : Bool) (rest : List Str) : Out :=
+  let cs := table.map (fun _ => 0)
   match (if known then run env.fenv table cs rest else runStrict env.fenv table cs rest) with
-  -- a failed parse: `Model/Engine` does not report how far the closures advanced before the error
-  | .exit c k => (.exit c k, if touchesCounter table rest then none else some cs)
-  | .raise e => (.raise e, if touchesCounter table rest then none else some cs)
-  | .unmodelled w => (.unmodelled w, none)
-  | .ok ns extras cs' =>
+  | .exit c k => .exit c k
+  | .raise e => .raise e
+  | .unmodelled w => .unmodelled w
+  | .ok ns extras _ =>
     match frozen.mapM (instOf defs ns), late.mapM (lateInst defs) with
-    | .error o, _ => (o, some cs')
-    | _, .error o => (o, some cs')
-    | .ok a, .ok b => (.ok (a ++ b) (subgroupsOf ns frozen) (ns.lookup cfgDest) extras, some cs')
+    | .error o, _ => o
+    | _, .error o => o
+    | .ok a, .ok b => .ok (a ++ b) (subgroupsOf ns frozen) (ns.lookup cfgDest) extras
 
 /-! ### the `--config_path` prologue of `parse_known_args` (parsing.py:308-343) -/
 
@@ -411,8 +405,7 @@ def cfgPhase (env : Env) (p : PState) (argv : List Str) : CfgOut :=
           match p0.cfgDefault with
           | none =>
             -- first call: self.add_argument("--config_path", type=Path, default=config_path)
-            .go { p0 with fileDefs := defs, cfgDefault := some sc.v, table := p0.table ++ [cfgAct sc.v],
-                          counters := p0.counters.map (· ++ [0]) } sc.rest
+            .go { p0 with fileDefs := defs, cfgDefault := some sc.v, table := p0.table ++ [cfgAct sc.v] } sc.rest
           | some _ =>
             -- later calls: only the default of that action is refreshed (the D6 repair)
             .go { p0 with fileDefs := defs, cfgDefault := some sc.v, table := setCfgDefault sc.v p0.table } sc.rest
@@ -424,11 +417,9 @@ def finishP (env : Env) (p1 : PState) (known : Bool) (rest : List Str) : PState 
   match preprocess env p1 rest with
   | .stop p2 o => (p2, o)
   | .ok p2 =>
-    match p2.counters with
-    | none => ({ p2 with broken := true }, .unmodelled "closure counters not tracked after a failed parse")
-    | some cs =>
-      let r := finishOut env p2.table cs p2.frozen p2.late p2.fileDefs known rest
-      ({ p2 with counters := r.2 }, r.1)
+    match finishOut env p2.table p2.frozen p2.late p2.fileDefs known rest with
+    | .unmodelled w => ({ p2 with broken := true }, .unmodelled w)
+    | o => (p2, o)
 
 /-- `parser.parse_args(argv)` (`known = false`) / `parser.parse_known_args(argv)` -/
 def parseP (env : Env) (p : PState) (known : Bool) (argv : List Str) : PState × Out :=
